@@ -10,21 +10,21 @@
    and items are re-pushed after having been popped.
 
    One model step = the code between two scheduling points of the T-sched harness
-   (harness/h_lifo.c): a yield before every parsec_atomic_cas_ptr /
-   parsec_atomic_cas_int128 (interpose.h), before parsec_atomic_rmb (added in
-   h_lifo.c: it separates the plain read of the counter from the plain read of the
-   item pointer) and between two operations of a thread.  Plain accesses belong to
-   the segment that contains them:
+   (harness/h_lifo.c): a yield before AND after every parsec_atomic_cas_ptr /
+   parsec_atomic_cas_int128 (so a CAS is a step of its own), before parsec_atomic_rmb
+   (it separates the plain read of the counter from the plain read of the item
+   pointer) and between two operations of a thread.  Plain accesses belong to the
+   segment that contains them:
 
-     push / chain   seg A: next = head.item (plain); tail->list_next = next (plain)
-                    seg B: CAS_ptr(&head.item, next, ring): success -> return;
-                           failure -> next = head.item; tail->list_next = next (seg B again)
-     pop / try_pop  seg A: old.counter = head.counter (plain)                  [rmb]
-                    seg B: item = head.item (plain); NULL -> return NULL;
-                           otherwise read item->list_next (plain)
-                    seg C: CAS_128(&head, (old.counter,item), (old.counter+1,next)):
-                           success -> item->list_next = NULL (plain); return item
-                           failure -> try_pop: return NULL; pop: seg A again
+     push / chain   A: next = head.item (plain); tail->list_next = next (plain)      Idle/PWr -> PCas
+                    B: CAS_ptr(&head.item, next, ring)                               PCas -> PRet | PWr
+                    C: success: return            failure: A again
+     pop / try_pop  A: old.counter = head.counter (plain)                   [rmb]    Idle/PopRetry -> PopRd
+                    B: item = head.item (plain); NULL -> return NULL;
+                       otherwise read item->list_next (plain)                        PopRd -> PopCas | Idle
+                    C: CAS_128(&head, (old.counter,item), (old.counter+1,next))      PopCas -> PRet | PopRetry
+                    D: success: item->list_next = NULL (plain); return item
+                       failure: try_pop: return NULL; pop: A again
      is_empty       one segment (plain read of head.item)
 
    The history [hist] (newest event first) records, for every operation, its
@@ -54,9 +54,12 @@ Definition res_of (a : act) : res :=
 
 Inductive pc :=
   | Idle
-  | PCas (xs : list item) (h : option item)                       (* push/chain about to CAS; h = the head it read *)
+  | PWr (xs : list item)                                           (* push/chain: CAS failed, about to re-read the head *)
+  | PCas (xs : list item) (h : option item)                        (* push/chain about to CAS; h = the head it read *)
   | PopRd (try : bool) (k : Z)                                     (* counter read, about to read the item *)
-  | PopCas (try : bool) (k : Z) (it : item) (nx : option item).    (* about to CAS128 *)
+  | PopCas (try : bool) (k : Z) (it : item) (nx : option item)     (* about to CAS128 *)
+  | PopRetry                                                       (* pop: CAS failed, about to re-read the counter *)
+  | PRet (a : act).                                                (* linearised with a, about to return *)
 
 Record thread := { t_pc : pc; t_ops : list op; t_own : list item; t_res : list res }.
 Record cfg := { nxt : item -> option item; hcnt : Z; hitem : option item;
@@ -95,7 +98,7 @@ Definition pick (j : nat) (l : list item) : option (item * list item) :=
 Definition mkth (p : pc) (ops : list op) (own : list item) (rs : list res) : thread :=
   {| t_pc := p; t_ops := ops; t_own := own; t_res := rs |}.
 
-(* operation of thread t completes with linearisation action a *)
+(* operation of thread t returns the value of its linearisation action a *)
 Definition fin (th : thread) (own : list item) (a : act) : thread :=
   mkth Idle (t_ops th) own (res_of a :: t_res th).
 Definition fin_ev (t : nat) (a : act) : list event := [ERes t (res_of a); ELin t a].
@@ -108,15 +111,18 @@ Definition step (uc : bool) (c : cfg) (t : nat) : cfg :=
   match nth_error (thr c) t with
   | None => c
   | Some th =>
+    let goto p evs := {| nxt := nxt c; hcnt := hcnt c; hitem := hitem c;
+                         thr := upd (thr c) t (mkth p (t_ops th) (t_own th) (t_res th));
+                         hist := evs ++ hist c |} in
     match t_pc th with
     | Idle =>
       match t_ops th with
       | [] => c
       | o :: ops =>
         let th0 := mkth Idle ops (t_own th) (t_res th) in
-        let skip := {| nxt := nxt c; hcnt := hcnt c; hitem := hitem c;
-                       thr := upd (thr c) t (fin th0 (t_own th) (APush []));
-                       hist := fin_ev t (APush []) ++ EInv t o :: hist c |} in
+        let whole a := {| nxt := nxt c; hcnt := hcnt c; hitem := hitem c;
+                          thr := upd (thr c) t (fin th0 (t_own th) a);
+                          hist := fin_ev t a ++ EInv t o :: hist c |} in
         let start xs own' :=
                     {| nxt := link (nxt c) xs (hitem c); hcnt := hcnt c; hitem := hitem c;
                        thr := upd (thr c) t (mkth (PCas xs (hitem c)) ops own' (t_res th));
@@ -126,50 +132,53 @@ Definition step (uc : bool) (c : cfg) (t : nat) : cfg :=
                        hist := EInv t o :: hist c |} in
         match o with
         | OPush j => match pick j (t_own th) with
-                     | None => skip
+                     | None => whole (APush [])                 (* nothing to push *)
                      | Some (x, own') => start [x] own'
                      end
         | OChain n => match firstn n (t_own th) with
-                      | [] => skip
+                      | [] => whole (APush [])
                       | xs => start xs (skipn n (t_own th))
                       end
         | OPop => rd false
         | OTryPop => rd true
-        | OEmpty => let a := AEmpty (is_none (hitem c)) in
-                    {| nxt := nxt c; hcnt := hcnt c; hitem := hitem c;
-                       thr := upd (thr c) t (fin th0 (t_own th) a);
-                       hist := fin_ev t a ++ EInv t o :: hist c |}
+        | OEmpty => whole (AEmpty (is_none (hitem c)))
         end
       end
-    | PCas xs h =>
+    | PWr xs =>                                   (* next = head.item; tail->list_next = next *)
+        {| nxt := set (nxt c) (last xs O) (hitem c); hcnt := hcnt c; hitem := hitem c;
+           thr := upd (thr c) t (mkth (PCas xs (hitem c)) (t_ops th) (t_own th) (t_res th));
+           hist := hist c |}
+    | PCas xs h =>                                (* parsec_atomic_cas_ptr(&head.item, next, ring) *)
       if opt_eqb (hitem c) h
       then {| nxt := nxt c; hcnt := hcnt c; hitem := hd_error xs;
-              thr := upd (thr c) t (fin th (t_own th) (APush xs));
-              hist := fin_ev t (APush xs) ++ hist c |}
-      else {| nxt := set (nxt c) (last xs O) (hitem c); hcnt := hcnt c; hitem := hitem c;
-              thr := upd (thr c) t (mkth (PCas xs (hitem c)) (t_ops th) (t_own th) (t_res th));
-              hist := hist c |}
-    | PopRd try k =>
+              thr := upd (thr c) t (mkth (PRet (APush xs)) (t_ops th) (t_own th) (t_res th));
+              hist := ELin t (APush xs) :: hist c |}
+      else goto (PWr xs) []
+    | PopRd try k =>                              (* item = head.item; NULL ? ; item->list_next *)
       match hitem c with
       | None => {| nxt := nxt c; hcnt := hcnt c; hitem := hitem c;
                    thr := upd (thr c) t (fin th (t_own th) (APop None));
                    hist := fin_ev t (APop None) ++ hist c |}
-      | Some it => {| nxt := nxt c; hcnt := hcnt c; hitem := hitem c;
-                      thr := upd (thr c) t (mkth (PopCas try k it (nxt c it)) (t_ops th) (t_own th) (t_res th));
-                      hist := hist c |}
+      | Some it => goto (PopCas try k it (nxt c it)) []
       end
-    | PopCas try k it nx =>
+    | PopCas try k it nx =>                       (* parsec_atomic_cas_int128 on (counter, item) *)
       if (if uc then k =? hcnt c else true) && opt_eqb (hitem c) (Some it)
-      then {| nxt := set (nxt c) it None; hcnt := k + 1; hitem := nx;
-              thr := upd (thr c) t (fin th (it :: t_own th) (APop (Some it)));
-              hist := fin_ev t (APop (Some it)) ++ hist c |}
-      else if try
-      then {| nxt := nxt c; hcnt := hcnt c; hitem := hitem c;
-              thr := upd (thr c) t (fin th (t_own th) ATryFail);
-              hist := fin_ev t ATryFail ++ hist c |}
-      else {| nxt := nxt c; hcnt := hcnt c; hitem := hitem c;
-              thr := upd (thr c) t (mkth (PopRd false (hcnt c)) (t_ops th) (t_own th) (t_res th));
-              hist := hist c |}
+      then {| nxt := nxt c; hcnt := k + 1; hitem := nx;
+              thr := upd (thr c) t (mkth (PRet (APop (Some it))) (t_ops th) (t_own th) (t_res th));
+              hist := ELin t (APop (Some it)) :: hist c |}
+      else if try then goto (PRet ATryFail) [ELin t ATryFail]
+      else goto PopRetry []
+    | PopRetry => goto (PopRd false (hcnt c)) []  (* old.counter = head.counter *)
+    | PRet a =>                                   (* after a successful pop: item->list_next = NULL; then return *)
+      match a with
+      | APop (Some it) =>
+           {| nxt := set (nxt c) it None; hcnt := hcnt c; hitem := hitem c;
+              thr := upd (thr c) t (fin th (it :: t_own th) a);
+              hist := ERes t (res_of a) :: hist c |}
+      | _ => {| nxt := nxt c; hcnt := hcnt c; hitem := hitem c;
+                thr := upd (thr c) t (fin th (t_own th) a);
+                hist := ERes t (res_of a) :: hist c |}
+      end
     end
   end.
 
@@ -217,6 +226,8 @@ Fixpoint replay (s0 : list item) (h : list event) : option (list item) :=
   | _ :: h' => replay s0 h'
   end.
 
-Definition held (th : thread) : list item :=
-  t_own th ++ match t_pc th with PCas xs _ => xs | _ => [] end.
+(* items a thread holds: its bag, the ring it is pushing, the item it has just popped *)
+Definition infl (p : pc) : list item :=
+  match p with PCas xs _ => xs | PWr xs => xs | PRet (APop (Some it)) => [it] | _ => [] end.
+Definition held (th : thread) : list item := t_own th ++ infl (t_pc th).
 Definition held_all (c : cfg) : list item := concat (map held (thr c)).
